@@ -2721,6 +2721,34 @@ def context_restore_table(ctx, rule):
                         n += 1
                         if problem and bad is None:
                             bad = (doc_html, outer_html, shape, passes, problem)
+    # ... and on a compound that carries every field and flag, with each single check failing in turn (every way out of the
+    # per-compound chain of checks)
+    inv = ctx.consts
+    all_flags = 0
+    for nm_ in inv.folder.env_nodes['css_types']:
+        if nm_.startswith('SEL_'):
+            all_flags |= inv.folder.lookup('css_types', nm_)
+    for failing in [None] + list(CHECKS):
+        for doc_html in (True, False):
+            for is_not in (False, True):
+                full = Obj(_cls='css_types.Selector', _name='Selector', tag=Obj(_name='tag'), ids=('i',), classes=('c',), attributes=(Obj(_name='attr'),),
+                           nth=(Obj(_name='nth'),), selectors=(Obj(_name='sub'),), relation=Obj(_name='rel', __len__=1, __iter__=[Obj(_name='r0')], __bool__=True),
+                           rel_type=None, contains=(Obj(_name='cont'),), lang=(Obj(_name='lang'),), flags=all_flags)
+                me = Obj(_cls='css_match.CSSMatch', _name='self', namespaces=NSMAP, iframe_restrict=False, is_html=doc_html, is_xml=not doc_html,
+                         scope=None, root=None, tag=None, has_html_namespace=False)
+                stubs = {f'self.{c}': (lambda *a, _c=c, **k: _c != failing) for c in CHECKS}
+                try:
+                    call_function(ctx, fnq, [Obj(_name='el'), lst([full, full], True, is_not)], {}, stubs, me)
+                    after = (me.get('namespaces'), me.get('iframe_restrict'))
+                    problem = None if (after[0] is NSMAP and after[1] is False) else (
+                        f'leaves the matcher with namespaces={after[0]!r}, iframe_restrict={after[1]!r} when the check {failing} fails')
+                except Raised as e:
+                    problem = f'raises {e.exc_name}'
+                except Unsupported as e:
+                    raise AnalysisError(f'match_selectors: outside the evaluable fragment: {e}')
+                n += 1
+                if problem and bad is None:
+                    bad = (doc_html, True, f'a compound with every field, {failing or "no check"} failing', failing is None, problem)
     rule.instance({'match_selectors': 'matcher state before = after', 'cases': n}, key='context-restore')
     rule.obligation(bad is None)
     if bad is not None:
